@@ -54,8 +54,11 @@ type StructV struct {
 type ArrayV struct{ E []Value }
 
 type Obj struct {
-	ID int
-	T  types.Type // static type of an input root object (for the write monitor)
+	// Spare: 1 + the original length of an input slice's backing array once an append aliased it (stores at
+	// or beyond that index land in spare capacity and change nothing a reader of the object can see); 0 = none
+	Spare int
+	ID    int
+	T     types.Type // static type of an input root object (for the write monitor)
 	// StrOrigin: the array was created by []byte(s) for this string and has
 	// not been written since (string(b) then gives s back).
 	StrOrigin *StrV
